@@ -328,6 +328,10 @@ fn main() {
                 pats.push(format!("{{{},zz,{}}}>=1", x, y));
             }
         }
+        // a comma inside a bracket set inside a group still separates alternatives
+        for p in ["{foo-[0-9,a]*,bar-1}", "{p[,]q,r}", "{[a,b]}", "p-{[1,2]*,x}", "{a[,b}", "{a],b}", "{mysql,mariadb}-[0-9]*", "{py27,py}-[0-9]*"] {
+            pats.push(p.to_string());
+        }
         // fixed text on both sides of a group whose alternatives carry the operator
         for p in ["pkg{>=1,<0}.5", "p{>=1,<1}.0", "p{>,<}1", "p{>=,<}1.0", "py-foo{>=1,<0}.5", "p{-1,>=2}.0", "{p,q}{>=1,<1}.5"] {
             pats.push(p.to_string());
@@ -368,6 +372,7 @@ fn main() {
             pats.push(format!("p{}a{}-1", "{".repeat(d), ",c}".repeat(d)));
         }
         let names: Vec<String> = ["p-1", "pa0-1", "pa7-1", "pa15-1", "pa16-1", "pa63-1", "pa199-1", "pa200-1", "a0p-1", "a16p-1", "p-0", "p-16", "p-199", "p-200",
+            "foo-1", "foo-,", "a]*", "bar-1", "p,q", "p[q", "p[", "]q", "r", "a", "b]", "[a", "p-1", "p-[1", "2]*", "p-2]*", "p-x", "mysql-8.0-rc1", "mariadb-1-", "mysql-8.0", "py-1-2", "py27-3.0-1",
             "pkg-2.0", "pkg-0.2", "pkg-1", "p-2.0", "p-1.0", "p-0.5", "p-1", "py-foo-1.0", "py-foo-2.5", "py-foo-2.4.3", "py-foo-6", "py27-foo-3", "py27-foo-6", "py30-foo-1", "o3-4", "o3-1",
             "py-xyz-foo-1", "py-opt3-foo-1", "py-opt16-foo-1", "py-xyz-foo-2", "py-x-foo-1", "py-foo-1", "py-foo-2", "py-foo-0", "py-fooopt3", "opt3", "py-yaz-foo-1",
             "pab-1", "paaaa-1", "paaaaaaaaaaaa-1", "paaaaaaaaaaaaaaaaaa-1", "paaaaaaaaaaaaaaaaaaaa-1", "pabababab-1", "paaaaaaaaaa-1", "pb-1", "pa-1", "pbbbba-1", "pc-1", "pac-1", "pacccc-1"].iter().map(|s| s.to_string()).collect();
@@ -375,6 +380,7 @@ fn main() {
         for (a, b, _) in mc_core::chars::HASH_COLLISIONS {
             names.push(format!("{}-1", a));
             names.push(format!("{}-1", b));
+            names.push(format!("{}-8.0-rc1", b));
         }
         run.bound(format!("scale: {} patterns with 8..200 alternatives, 4..10 groups, nesting depth 4..32, 36 pairs of alternatives colliding under common 32-bit hashes x {} names plus own expansions", pats.len(), names.len()));
         for p in &pats {
